@@ -59,6 +59,7 @@ const (
 	kFixture
 	kPosSweep // small leading paddings 0..130 on specifications whose diagnostics carry positions
 	kDelivery // random layouts read through a benign delivery schedule (short chunks, zero-length reads, data with io.EOF)
+	kHuge     // files far beyond the buffer: offsets, lines and columns pass 2^15, 2^16, 2^17 and 2^20
 )
 
 var fixtures = []string{"ebnf.grammar", "pascal.grammar", "test.success.grammar", "test.invalid.grammar", "test.error.grammar"}
@@ -92,6 +93,13 @@ func (e Engine) Plan(tier string, seed uint64) []simrt.Case {
 	}
 	for i := 0; i < nDel; i++ {
 		add(simrt.Mix(seed, 13, 6, uint64(i)), "delivery", kDelivery)
+	}
+	nHuge := 4
+	if tier == "thorough" {
+		nHuge = 40
+	}
+	for i := 0; i < nHuge; i++ {
+		add(simrt.Mix(seed, 13, 7, uint64(i)), "huge", kHuge, i)
 	}
 	nPos := 8
 	if tier == "thorough" {
@@ -376,7 +384,7 @@ func (e Engine) Run(t *simrt.Tape, c simrt.Case, x *simrt.Ctx) *simrt.Result {
 			res.Skipped++
 			return res
 		}
-	} else if kind == kPosSweep {
+	} else if kind == kPosSweep || (kind == kHuge && c.Args[1]%2 == 1) {
 		modes := []string{"duplicate_value", "duplicate_def", "literal_equals_token_value", "duplicate_value", "valid", "syntax_insert"}
 		s = gen.GenSpec(t, gen.GenOpts{ForceMode: modes[c.Args[1]%len(modes)], MaxRules: 2})
 	} else {
@@ -554,6 +562,30 @@ func (e Engine) Run(t *simrt.Tape, c simrt.Case, x *simrt.Ctx) *simrt.Result {
 					}
 				}
 			}
+		}
+
+	case kHuge:
+		// Far more input than the buffer holds: byte offsets, line numbers (padding of newlines) and
+		// column numbers (one long line of blanks) pass the 15-, 16-, 17- and 20-bit marks; a single
+		// comment of that size; the padding in front of the first or in front of a later token.
+		marks := []int{1 << 15, 1 << 16, 1 << 17, 1 << 20}
+		for j := 0; j < 3; j++ {
+			m := marks[(c.Args[1]+j)%len(marks)]
+			if m == 1<<20 && j > 0 {
+				m = 1 << 16
+			}
+			st := gen.Style{SepSeed: uint64(t.Draw(1 << 30)), DropSemis: t.Chance(1, 3), FinalNL: t.Draw(4), PadKind: (c.Args[1] + 2*j) % 5}
+			pad := m - 40 + t.Draw(80)
+			if t.Chance(1, 2) {
+				st.LeadPad = pad
+			} else {
+				st.MidGap, st.MidPad = 1+t.Draw(len(s.Toks)), pad
+			}
+			if !r.check(st, fmt.Sprintf("huge: %d bytes of padding (kind %d, mid=%v)", pad, st.PadKind, st.MidPad > 0)) {
+				return res
+			}
+			res.Key("huge", m, st.PadKind, st.MidPad > 0)
+			res.Count("files_beyond_64KiB", 1)
 		}
 
 	case kPosSweep:
